@@ -160,8 +160,16 @@ def main():
             "add_only": True,
         },
         "engines": [
-            {"name": "E-SEQ", "path": "harness/vcheck", "serves_properties": [i for i in ALL if P.get(i, {}).get("engine", "").startswith("E-SEQ")],
-             "kind_free_text": "bounded-exhaustive enumeration of inputs / histories / programs on the real code against boring reference models"},
+            {"name": "E-SEQ", "path": "harness/vcheck", "serves_properties": [i for i in ALL if "E-SEQ" in P.get(i, {}).get("engine", "")],
+             "kind_free_text": "bounded-exhaustive enumeration of inputs / histories / programs on the real code against boring reference models (explicit-state search where the subject has state: DocSet programs, writer lifecycles, operation histories)"},
+            {"name": "E-FAULT", "path": "harness/vcheck/src/c11.rs, simdir.rs, wl.rs", "serves_properties": ["C11"],
+             "kind_free_text": "exhaustive single-fault enumeration over the storage-operation log of each workload on SimDirectory (a harness-side tantivy::Directory)"},
+            {"name": "E-CRASH", "path": "harness/vcheck/src/c01.rs, crash.rs", "serves_properties": ["C01", "C10"],
+             "kind_free_text": "crash-point x crash-image enumeration from SimDirectory logs under an explicit durability model; every image recovered with the real code"},
+            {"name": "E-CONF", "path": "harness/vcheck/src/c01conf.rs", "serves_properties": ["C01", "C11", "C10", "C05"],
+             "kind_free_text": "conformance of the simulated directory with MmapDirectory: strace of the same workloads on the real directory, projected onto the model's events and compared; fsync obligations checked on the trace"},
+            {"name": "E-PREEMPT", "path": "harness/vcheck/src/presched.rs, scen.rs, preempt_family.rs", "serves_properties": ["C05", "C10"],
+             "kind_free_text": "exhaustive single-preemption exploration at storage-operation granularity: a scenario is re-run once per (thread, k-th storage operation) with the scenario's action forced in front of that operation through SimDirectory's gate"},
         ],
         "checks": checks,
         "not_applicable": na,
